@@ -59,6 +59,38 @@ Proof.
 Qed.
 
 (* ---- tables ---- *)
+Lemma nth_optN_app_new {E} (es : list E) x : nth_optN (es ++ [x]) (lenN es) = Some x.
+Proof.
+  induction es as [|y t IH]; [reflexivity|].
+  cbn [app nth_optN]. rewrite lenN_cons. destruct (N.eqb_spec (1 + lenN t) 0); [lia|].
+  replace (1 + lenN t - 1) with (lenN t) by lia. exact IH.
+Qed.
+
+Lemma nth_optN_app_old {E} (es : list E) x j y : nth_optN es j = Some y -> nth_optN (es ++ [x]) j = Some y.
+Proof.
+  revert j; induction es as [|z t IH]; intros j; cbn [app nth_optN]; [discriminate|].
+  destruct (N.eqb_spec j 0); [tauto|]. apply IH.
+Qed.
+
+Lemma nth_optN_lt {E} (es : list E) j y : nth_optN es j = Some y -> j < lenN es.
+Proof.
+  revert j; induction es as [|z t IH]; intros j; cbn [nth_optN]; [discriminate|].
+  rewrite lenN_cons. destruct (N.eqb_spec j 0); [lia|]. intros H. apply IH in H. lia.
+Qed.
+
+Lemma nth_optN_ge {E} (es : list E) j : lenN es <= j -> nth_optN es j = None.
+Proof.
+  revert j; induction es as [|z t IH]; intros j; cbn [nth_optN]; [reflexivity|].
+  rewrite lenN_cons. destruct (N.eqb_spec j 0); [lia|]. intros H. apply IH. lia.
+Qed.
+
+
+Lemma nth_optN_some {E} (es : list E) j : j < lenN es -> exists x, nth_optN es j = Some x.
+Proof.
+  revert j; induction es as [|z t IH]; intros j; cbn [nth_optN]; [cbn; lia|].
+  rewrite lenN_cons. destruct (N.eqb_spec j 0); [eauto|]. intros H. apply IH. lia.
+Qed.
+
 Section TableLemmas.
   Context {E : Type}.
   Variable enc : E -> bytes.
@@ -81,31 +113,6 @@ Section TableLemmas.
       rewrite skipnN_app_ge by (rewrite enc_len; nia).
       rewrite enc_len. replace (j * esz - esz) with ((j - 1) * esz) by nia.
       now apply IH.
-  Qed.
-
-  Lemma nth_optN_app_new (es : list E) x : nth_optN (es ++ [x]) (lenN es) = Some x.
-  Proof.
-    induction es as [|y t IH]; [reflexivity|].
-    cbn [app nth_optN]. rewrite lenN_cons. destruct (N.eqb_spec (1 + lenN t) 0); [lia|].
-    replace (1 + lenN t - 1) with (lenN t) by lia. exact IH.
-  Qed.
-
-  Lemma nth_optN_app_old (es : list E) x j y : nth_optN es j = Some y -> nth_optN (es ++ [x]) j = Some y.
-  Proof.
-    revert j; induction es as [|z t IH]; intros j; cbn [app nth_optN]; [discriminate|].
-    destruct (N.eqb_spec j 0); [tauto|]. apply IH.
-  Qed.
-
-  Lemma nth_optN_lt (es : list E) j y : nth_optN es j = Some y -> j < lenN es.
-  Proof.
-    revert j; induction es as [|z t IH]; intros j; cbn [nth_optN]; [discriminate|].
-    rewrite lenN_cons. destruct (N.eqb_spec j 0); [lia|]. intros H. apply IH in H. lia.
-  Qed.
-
-  Lemma nth_optN_ge (es : list E) j : lenN es <= j -> nth_optN es j = None.
-  Proof.
-    revert j; induction es as [|z t IH]; intros j; cbn [nth_optN]; [reflexivity|].
-    rewrite lenN_cons. destruct (N.eqb_spec j 0); [lia|]. intros H. apply IH. lia.
   Qed.
 
   Lemma concat_map_app_one es x : concat (map enc (es ++ [x])) = concat (map enc es) ++ enc x.
@@ -131,3 +138,31 @@ Section TableLemmas.
       rewrite Ez. reflexivity.
   Qed.
 End TableLemmas.
+
+(* ---- building a table by successive append_data calls ---- *)
+Section AppendAll.
+  Variable junk : N -> N.
+  Variable xe : bool.
+
+  Fixpoint append_all (s : section) (chunks : list bytes) : res section :=
+    match chunks with
+    | [] => Ok s
+    | c :: t => s1 <- append_data junk xe s c ;; append_all s1 t
+    end.
+
+  Lemma append_all_spec s chunks :
+    Inv s -> sh_size s + lenN (concat chunks) < size_bound (s_cls s) ->
+    exists s', append_all s chunks = Ok s' /\ Inv s' /\
+      contents s' = contents s ++ concat chunks /\
+      s_cls s' = s_cls s /\ sh_type s' = sh_type s.
+  Proof.
+    revert s; induction chunks as [|c t IH]; intros s HI Hb; cbn [append_all concat] in *.
+    - exists s. rewrite app_nil_r. split; [reflexivity|]. split; [exact HI|]. split; [reflexivity|]. split; reflexivity.
+    - rewrite lenN_app in Hb.
+      destruct (append_data_spec junk xe s c HI ltac:(lia)) as (s1 & -> & I1 & C1 & K1 & T1 & S1).
+      cbn [bind].
+      destruct (IH s1 I1) as (s' & E & I' & C' & K' & T'); [rewrite K1; lia|].
+      exists s'. split; [exact E|]. split; [exact I'|].
+      split; [rewrite C', C1, app_assoc; reflexivity|]. split; congruence.
+  Qed.
+End AppendAll.
